@@ -133,6 +133,8 @@ def run(sid, tier="quick", props=None):
         for p in props:
             for f in glob.glob(os.path.join(VERIF, "replay", p, "fail-*")) + glob.glob(os.path.join(VERIF, "replay", p, "crash-*")):
                 os.remove(f)
+            # nor is the evidence of such a run evidence about the real tree
+            sh("git checkout -- evidence/%s.json" % p, cwd=VERIF)
     meta.setdefault("detection", {})
     for p, r in res.items():
         meta["detection"].setdefault(p, {})[tier] = r
